@@ -4,11 +4,14 @@
 // ListDirectoryEntries and via Filer.ListDirectoryEntries (prefixed path), dump canonically.
 //
 // entry tokens: 15 attribute tokens, nchunks, 5 tokens per chunk (fileId fid srcFileId srcFid payload),
-//               extended hardLinkId hardLinkCounter content remote
+//
+//	extended hardLinkId hardLinkCounter content remote
+//
 // ops:  reset <kind>
-//       put ins|upd <path> <entry>   => ok|err <first byte of the marshalled entry> <gz 0|1: stored value would be gzipped>
-//       find <path>                  => ok <entry> | notfound | err
-//       ls w|f <path>                => ok <entry> | notfound | err     (listing of the parent, start=name inclusive, limit 1)
+//
+//	put ins|upd <path> <entry>   => ok|err <first byte of the marshalled entry> <gz 0|1: stored value would be gzipped>
+//	find <path>                  => ok <entry> | notfound | err
+//	ls w|f <path>                => ok <entry> | notfound | err     (listing of the parent, start=name inclusive, limit 1)
 package main
 
 import (
@@ -446,6 +449,23 @@ func main() {
 			}
 			if r.Chance(1, 10) {
 				doFind(path + "-absent")
+			}
+			if r.Chance(1, 12) {
+				// two links of one file: the second insert carries the shared (updated) content
+				pa := string(util.NewFullPath(r.Pick(ds), fmt.Sprintf("hlA%d", i)))
+				pb := string(util.NewFullPath(r.Pick(ds), fmt.Sprintf("hlB%d", i)))
+				id := append([]byte{1}, r.Bytes(16)...)
+				ea := genEntry(r, pa, r.Intn(4))
+				ea.HardLinkId, ea.HardLinkCounter = id, 1
+				eb := genEntry(r, pb, r.Intn(4))
+				eb.HardLinkId, eb.HardLinkCounter = id, 2
+				doPut("ins", ea)
+				doPut("ins", eb)
+				for _, p := range []string{pa, pb} {
+					doFind(p)
+					doLs("w", p)
+					doLs("f", p)
+				}
 			}
 		}
 	}
